@@ -126,6 +126,10 @@ class ClassHooks(Hooks):
             return ("func", name)
         if self._resolve(eng, name, False):
             return ("func", name)
+        from . import extract
+        v = extract.module_constant(list(self.funcs.values()), name)
+        if v is not extract._NOCONST:
+            return v                              # a module-level literal constant, read from the real source
         raise Unsupported(f"global {name}")
 
     def truth(self, eng, v):
